@@ -179,3 +179,26 @@ PROPS["C03"] = Prop(
                 "re-evaluated on equal-by-construction twins with different internal encodings and on aliased operands; held on the "
                 "programs generated for the seed, says nothing about programs not generated"),
 )
+
+C04_ENV = {"ASAN_OPTIONS_EXTRA": "max_allocation_size_mb=128"}
+PROPS["C04"] = Prop(
+    "C04",
+    [Stage("asan", "c04_bitmapstr", "asan", quick=60000, thorough=1500000, env=C04_ENV),
+     Stage("msan", "c04_bitmapstr", "msanbm", quick=20000, thorough=300000,
+           sources=["c04_bitmapstr.c", "common/runner.c"], env=C04_ENV)],
+    rule=("even cases: a generated bitmap printed in the 3 formats (snprintf contract on exact-size heap buffers for every "
+          "L in 0..needed+2 (sampled in the middle when needed>160), asprintf equality, parse-back into clean and dirty "
+          "destinations compared through the SET model); odd cases: a rendered/mutated/random string in an exact-size heap "
+          "block given to the matching sscanf. distinct+non-trivial = class 1: (format, word count, infinite flag, needed "
+          "length) of printed bitmaps; class 2: (format, accept/reject, generator class, token-shape bits, length) of parse inputs"),
+    nontrivial_classes=[1, 2], floor=300,
+    assumptions=COMMON_ASSUME + [
+        "explicit indexes stay below 1984 (model window); hex-digit runs in list-format inputs are cut to 6 characters and "
+        "single allocations are capped at 128 MiB (allocator returns NULL) so that accepted inputs cannot legitimately ask for gigabytes",
+        "truncated text is required to be a prefix of the full text with a NUL inside the buffer (as stated); being shorter than the room is only counted",
+        "parsing into a dirty destination vs a fresh one is an informational counter for arbitrary inputs (not promised), verdict-bearing for the library's own output"],
+    technique="runtime monitor: round-trip/contract oracles over generated bitmaps and hostile strings in exact-size heap blocks under gcc ASan+UBSan and clang MSan",
+    level_text=("exploration: every generated bitmap is printed/parsed in the three formats with the snprintf contract checked for every "
+                "buffer length, and every generated or mutated input string is parsed from an exact-size heap block so that a one-byte "
+                "over-read is an ASan report; MSan catches results that depend on uninitialised words"),
+)
